@@ -12,14 +12,16 @@ def run(ctx):
          ('d1.h3.n3.faces', D(1, 3, 3, 0), [-4, -1, 0, -1, 0, 0], 120, ''),
          ('d2.h3.n3', D(2, 3, 3, 1), [-4, -1, 0, -1, 0, 0], 240, ''),
          ('d2.h4.n2', D(2, 4, 2, 1), [-2, -1, 0, -1, 0, 0], 240, ''),
-         ('d3.h3.n2', D(3, 3, 2, 1), [-2, -1, 0, -1, 0, 0], 240, '')]
+         ('d3.h3.n2', D(3, 3, 2, 1), [-2, -1, 0, -1, 0, 0], 240, ''),
+         ('auto.d1.h4.n3', D(1, 4, 3, 1), [-100, -1, 0, -1, 0, 0], 200, 'automatic block size (Estimate) with 1, 2 or 16 hardware threads'),
+         ('auto.d3.h3.n2', D(3, 3, 2, 1), [-100, 0, 0, -1, 0, 0], 240, 'automatic block size, Dim 3')]
     if not q:
         T += [('d1.h6.n4', D(1, 6, 4, 1), [-5, -1, 0, -2, 0, 0], 1800, ''), ('d2.h4.n3', D(2, 4, 3, 1), [-4, -1, 0, -1, 0, 0], 2400, ''),
               ('d2.h5.n2', D(2, 5, 2, 1), [-3, -1, 0, -1, 0, 0], 1800, ''), ('d3.h3.n3', D(3, 3, 3, 1), [-4, -1, 0, -1, 0, 0], 2400, ''),
               ('d3.h4.n2', D(3, 4, 2, 1), [-3, -1, 0, -1, 0, 0], 2400, '')]
     ctx.bounds.update(dict(trees='Dim 1-3, heights 3-5 (6 thorough), 2-3 particles (4 thorough); reference = one group per level; test block sizes 1..N+1 x both grouping modes',
                            executors='sequential; target/source and OpenMP variants under C09 / C03',
-                           outside='automatic block size (TbfBlockSizeFinder::Estimate reaches std::set rebalancing / istringstream in libstdc++.so, no IR) and the TBFMM_BLOCK_SIZE override; floating-point kernels'))
+                           outside='the TBFMM_BLOCK_SIZE environment override (getenv returns null: the istringstream parser lives in libstdc++.so, no IR); floating-point kernels. The automatic block size IS covered: std::set insertion is modelled without rebalancing (any BST shape is a correct set), hardware_concurrency forked over {1,2,16}'))
     ctx.assumptions += ASSUME
     run_specs(ctx, 'w_tree.cpp', 'h_c08', T, expect_reach=(160, 162, 163, 164))
     return finish(ctx, TEXT)
